@@ -25,6 +25,9 @@ func init() {
 	externals = map[string]externalFn{
 		verifPkg + ".Bool":     func(fr *frame, a []value) value { return fr.m.newInput("bool", term.BoolSort) },
 		verifPkg + ".Byte":     func(fr *frame, a []value) value { return fr.m.newInput("u8", term.BVSort(8)) },
+		verifPkg + ".Digit": func(fr *frame, a []value) value {
+			return lowerTerm(fr.m.C.ZExt(8, fr.m.newInput("u4", term.BVSort(4)).(*term.Term)), types.Typ[types.Uint8])
+		},
 		verifPkg + ".Uint16":   func(fr *frame, a []value) value { return fr.m.newInput("u16", term.BVSort(16)) },
 		verifPkg + ".Uint32":   func(fr *frame, a []value) value { return fr.m.newInput("u32", term.BVSort(32)) },
 		verifPkg + ".Int32":    func(fr *frame, a []value) value { return fr.m.newInput("i32", term.BVSort(32)) },
@@ -91,6 +94,25 @@ func init() {
 		},
 		"strings.Repeat": func(fr *frame, a []value) value {
 			return strings.Repeat(concStr(fr, a[0]), int(asInt64(a[1])))
+		},
+		// sync: locks are no-ops for a single thread of execution; stores made while a lock is
+		// held (or inside Once.Do) are not reported by the shared-write monitor
+		"(*sync.Mutex).Lock":      func(fr *frame, a []value) value { fr.m.lockDepth++; return nil },
+		"(*sync.Mutex).Unlock":    func(fr *frame, a []value) value { fr.m.lockDepth--; return nil },
+		"(*sync.RWMutex).Lock":    func(fr *frame, a []value) value { fr.m.lockDepth++; return nil },
+		"(*sync.RWMutex).Unlock":  func(fr *frame, a []value) value { fr.m.lockDepth--; return nil },
+		"(*sync.RWMutex).RLock":   func(fr *frame, a []value) value { return nil },
+		"(*sync.RWMutex).RUnlock": func(fr *frame, a []value) value { return nil },
+		"(*sync.Once).Do": func(fr *frame, a []value) value {
+			o := a[0].(*value)
+			if fr.m.onceDone[o] {
+				return nil
+			}
+			fr.m.onceDone[o] = true
+			fr.m.lockDepth++
+			fr.m.call(fr, token.NoPos, a[1], nil)
+			fr.m.lockDepth--
+			return nil
 		},
 		"strings.Index":     extStringsIndex,
 		"strings.HasPrefix": extHasPrefix,
@@ -426,6 +448,26 @@ func extSortSlice(fr *frame, a []value) value {
 
 // ---- builtins ----
 
+// copyVal copies struct and array values (which are held by reference in the engine) so that
+// append and copy do not alias their source elements.
+func copyVal(v value) value {
+	switch x := v.(type) {
+	case structure:
+		a := make(structure, len(x))
+		for i := range x {
+			a[i] = copyVal(x[i])
+		}
+		return a
+	case array:
+		a := make(array, len(x))
+		for i := range x {
+			a[i] = copyVal(x[i])
+		}
+		return a
+	}
+	return v
+}
+
 func (m *Machine) callBuiltin(caller *frame, callpos token.Pos, fn *ssa.Builtin, args []value) value {
 	switch fn.Name() {
 	case "append":
@@ -446,7 +488,7 @@ func (m *Machine) callBuiltin(caller *frame, callpos token.Pos, fn *ssa.Builtin,
 		if len(dst)+len(src) <= cap(dst) {
 			full := dst[:len(dst)+len(src)]
 			for i, v := range src {
-				m.write(&full[len(dst)+i], v)
+				m.write(&full[len(dst)+i], copyVal(v))
 			}
 			return full
 		}
@@ -455,8 +497,12 @@ func (m *Machine) callBuiltin(caller *frame, callpos token.Pos, fn *ssa.Builtin,
 			ncap = len(dst) + len(src)
 		}
 		out := make([]value, len(dst)+len(src), ncap)
-		copy(out, dst)
-		copy(out[len(dst):], src)
+		for i, v := range dst {
+			out[i] = copyVal(v)
+		}
+		for i, v := range src {
+			out[len(dst)+i] = copyVal(v)
+		}
 		return out
 
 	case "copy":
@@ -473,7 +519,10 @@ func (m *Machine) callBuiltin(caller *frame, callpos token.Pos, fn *ssa.Builtin,
 			n = len(src)
 		}
 		if n > 0 && len(dst) > 0 && len(src) > 0 && &dst[0] != &src[0] {
-			tmp := append([]value(nil), src[:n]...)
+			tmp := make([]value, n)
+			for i := 0; i < n; i++ {
+				tmp[i] = copyVal(src[i])
+			}
 			for i := 0; i < n; i++ {
 				m.write(&dst[i], tmp[i])
 			}
